@@ -17,11 +17,13 @@ PLAN = {
         "thorough": [S("hook-default"), S("m3-none", tag="nosimd")],
     },
     "C04": {
-        "quick": [S("hook-default"), S("m3-none", tag="tables")],
+        "quick": [S("hook-default"), S("m3-none", tag="tables"), S("m6-static-ssse3", tag="half-tables", only="canonical"), S("m7-static-sse41", tag="quarter-table", only="canonical"),
+                  S("m4-embedded-min", tag="min-tables", only="format-values")],
         "thorough": [S("hook-default"), S("m3-none", tag="tables"), S("m4-embedded-min", tag="min")],
     },
     "C05": {
-        "quick": [S("hook-default"), S("m3-none", tag="tables")],
+        "quick": [S("hook-default"), S("m3-none", tag="tables"), S("m6-static-ssse3", tag="half-table", only="dev1"), S("m7-static-sse41", tag="quarter-table", only="dev1"),
+                  S("m4-embedded-min", tag="min-table", only="dev1")],
         "thorough": [S("hook-default"), S("m3-none", tag="tables"), S("m4-embedded-min", tag="min"),
                      S("t-dec-half-nosimdhex", tag="half"), S("t-dec-quarter-nosimdhex", tag="quarter"), S("t-dec-min-simdparse", tag="min-simd")],
     },
